@@ -1054,6 +1054,11 @@ json handleInner(Ctx &c, const json &rec) {
         if (kb < 0) { std::string key = rec["pre"].dump() + rec["step"].dump(); unsigned long h = 1469598103934665603UL; for (unsigned char ch : key) { h ^= ch; h *= 1099511628211UL; }
                       static const long KS[] = {0, 0, 0, 0, 0, 9}; s.K = KS[h % 6]; }
         else s.K = kb;
+        // ballast only on lines that never close and reopen the file within the process (see DESIGN section 8: with ballast, an
+        // in-process close + reopen intermittently fails inside HDF5, also on the unchanged tree)
+        bool reopens = c.opts.value("reopen_check", false);
+        for (auto &st : all) { std::string a = st["a"]; if (a == "Close" || a == "Open" || a == "Crash") reopens = true; }
+        if (reopens) s.K = 0;
     }
     Ent fileEnt; fileEnt.kind = "file";
     // Init: an open read-write session on a new, empty file
